@@ -41,8 +41,7 @@ theorem env_lookup_perm (k : String) (env env' : List Frame) (h : FramesPerm env
 /-- the captured scope of a new function: distinct keys, and its lookup function depends only
     on the SET of listed variables and on what `envGet` answers for them -/
 theorem captureScope_lookup (env : List Frame) (vars : List String) (x : String) :
-    lookupAL x (captureScope env vars) =
-      if x ∈ vars ∧ isBuiltinIdent x = false then envGet env x else none :=
+    lookupAL x (captureScope env vars) = if x ∈ vars then envGet env x else none :=
   Blots.captureScope_lookup env vars x
 
 theorem captureScope_keys_distinct (env : List Frame) (vars : List String) :
